@@ -220,8 +220,9 @@ def _enum_worker(job):
             exp = ref_cusip(base)
             bad = utils.cusip_checksum(base) != exp or utils.validate_cusip(base + exp) is not True
             if not bad:
-                # all nine other digits as check character
-                for d in string.digits:
+                # two other digits as check character on every base (all 35 replacements on the stride below)
+                e = int(exp)
+                for d in (str((e + 1 + i % 9) % 10), str((e + 1 + (i // 9) % 9) % 10)):
                     if d != exp and utils.validate_cusip(base + d):
                         bad = True
                         break
@@ -232,7 +233,8 @@ def _enum_worker(job):
             exp = ref_isin(base)
             bad = utils.isin_checksum(base) != exp or utils.validate_isin(base + exp) is not True
             if not bad:
-                for d in string.digits:
+                e = int(exp)
+                for d in (str((e + 1 + i % 9) % 10), str((e + 1 + (i // 9) % 9) % 10)):
                     if d != exp and utils.validate_isin(base + d):
                         bad = True
                         break
